@@ -17,11 +17,10 @@ struct St {
     e: [(u64, u32); 2],
 }
 
-fn any_state(now: (u64, u32), ttl: Duration) -> St {
+/// any wf state with exactly `n` (a CONCRETE number, 0..=2) cached ids
+fn any_state(n: usize, now: (u64, u32), ttl: Duration) -> St {
     let mut c: DuplicateCache<u8> = DuplicateCache::new(ttl);
     c.0.list = VecDeque::with_capacity(4);
-    let n: usize = kani::any();
-    kani::assume(n <= 2);
     let k: [u8; 2] = kani::any();
     kani::assume(k[0] != k[1]);
     let mut e = [(0u64, 0u32); 2];
@@ -70,16 +69,12 @@ fn wf(c: &DuplicateCache<u8>) -> bool {
     true
 }
 
-tracing_off! {
-#[kani::proof]
-#[kani::unwind(6)]
-#[kani::stub(std::time::Instant::now, clock::now)]
-fn duplicate_cache_insert_contract() {
+fn insert_contract(n: usize) {
     let now = clock::set_any(HORIZON);
     let ttl_s: u64 = kani::any();
     kani::assume(ttl_s <= HORIZON);
     let ttl = Duration::new(ttl_s, kani::any::<u32>() % 1_000_000_000);
-    let mut st = any_state(now, ttl);
+    let mut st = any_state(n, now, ttl);
     let key: u8 = kani::any();
     let before = expiry_of(&st.cache, key);
     let other: u8 = kani::any();
@@ -105,7 +100,25 @@ fn duplicate_cache_insert_contract() {
         _ => assert!(other_after.is_none() || other_after == other_before),
     }
     assert!(wf(&st.cache));
-    let _ = (st.n, st.k, st.e);
+    std::mem::forget(st);
+}
+
+tracing_off! {
+#[kani::proof]
+#[kani::unwind(6)]
+#[kani::stub(std::time::Instant::now, clock::now)]
+fn duplicate_cache_insert_contract() {
+    insert_contract(2);
+}
+}
+
+tracing_off! {
+#[kani::proof]
+#[kani::unwind(6)]
+#[kani::stub(std::time::Instant::now, clock::now)]
+fn duplicate_cache_insert_contract_small() {
+    insert_contract(0);
+    insert_contract(1);
 }
 }
 
@@ -119,7 +132,7 @@ fn duplicate_cache_expiry_contract() {
     let ttl_s: u64 = kani::any();
     kani::assume(ttl_s <= HORIZON);
     let ttl = Duration::new(ttl_s, 0);
-    let mut st = any_state(now, ttl);
+    let mut st = any_state(2, now, ttl);
     let probe: u8 = kani::any();
     kani::assume(probe != st.k[0] && probe != st.k[1]);
     let _ = st.cache.insert(probe);
@@ -131,6 +144,7 @@ fn duplicate_cache_expiry_contract() {
         }
         i += 1;
     }
+    std::mem::forget(st);
 }
 }
 
@@ -141,7 +155,8 @@ tracing_off! {
 #[kani::stub(std::time::Instant::now, clock::now)]
 fn canary_duplicate_always_fresh() {
     let now = clock::set_any(HORIZON);
-    let mut st = any_state(now, Duration::from_secs(5));
+    let mut st = any_state(1, now, Duration::from_secs(5));
     assert!(st.cache.insert(kani::any()));
+    std::mem::forget(st);
 }
 }
